@@ -187,12 +187,13 @@ fn serialize_cmap(
                 .filter_map(|(cp, gid)| unicodes_set.contains(*cp).then_some((*cp, *gid)))
                 .collect();
 
-            serialize_encoding_record(record, &subtable, s, &cp_to_new_gid_list, plan)?;
+            let ret = serialize_encoding_record(record, &subtable, s, &cp_to_new_gid_list, plan);
             if s.in_error() && s.only_overflow() {
                 // cmap4 overflowed, reset and retry serialization without format 4 subtables.
                 s.revert_snapshot(snap);
                 return serialize_cmap(cmap, s, plan, retained_encoding_records, true);
             }
+            ret?;
         } else if format == 12 {
             let Some(unicodes_set) =
                 unicodes_cache.set_for(*rec_idx, &subtable, plan.font_num_glyphs)
@@ -256,7 +257,11 @@ fn serialize_encoding_record(
 
     s.push()?;
     let init_len = s.length();
-    cmap_subtable.serialize(s, plan, cp_to_new_gid_list)?;
+    if let Err(e) = cmap_subtable.serialize(s, plan, cp_to_new_gid_list) {
+        // leave no half-written object behind: the caller may revert and retry
+        s.pop_discard();
+        return Err(e);
+    }
     let mut obj_idx = None;
     if s.length() > init_len {
         obj_idx = s.pop_pack(true);
